@@ -26,6 +26,7 @@ RULE = ("the stdlib random functions are replaced (before the package is importe
 ASSUMPTIONS = ["permitted set computed by vf/oracle/order.py from RFC 9535 2.5.2.2 (cross-checked against the permitted-ordering tables of tests/test_nondeterminism.py by ./selfcheck)",
                "filter truth does not depend on member order"]
 DECIDING_MONITORS = ["M-leaf"]
+STALL_S = 600
 
 
 class Chooser:
@@ -280,11 +281,19 @@ def run_shard(spec, rec):
 
 
 def one(rec, R, nd, det, abn, orders, text, doc, max_leaves, exhaustive):
+    late = R.random() < 0.25
+    if late:
+        # the query is compiled first and the environment is switched to nondeterministic mode afterwards
+        from jsonpath_rfc9535 import JSONPathEnvironment
+        nd = JSONPathEnvironment()
+        rec.feat("mode-switched-on-after-compile")
     try:
         q = nd.compile(text)
         base = locs(det.compile(text).find(doc))
     except Exception:  # noqa: BLE001
         return
+    if late:
+        nd.nondeterministic = True
     ast = abn.ast(text)
     rec.wal({"query": text, "document": D.short(doc, 400)})
     # an abandoned traversal of the same query text on the same environment must not leak into the runs that follow
@@ -300,9 +309,10 @@ def one(rec, R, nd, det, abn, orders, text, doc, max_leaves, exhaustive):
         pass
     finally:
         CH.rand = None
-    q = nd.compile(text)
+    if not late:
+        q = nd.compile(text)
     try:
-        with guard(240):
+        with guard(120):
             if exhaustive:
                 results, leaves, complete, controlled, err = enumerate_leaves(q, doc, max_leaves)
             else:
